@@ -131,8 +131,10 @@ prop("C05",
      assumptions=["native fuzzing cannot be pinned to VERIF_SEED; its reproducible unit is the saved input (replay file)", "the watchdog (20 s, >= 10^4 x the normal cost), the allocation envelope and the CPU-time growth rule (24x for 8x size, above 1 s of thread CPU) are generous bounds, not tight ones"])
 
 prop("C06",
-     quick=[rapid("TestC06", 15000, shards=4), plain("TestSizeSweep", shards=4), plain("TestProducerConsumerGrid", shards=4), plain("TestNestedCompositions")],
-     thorough=[rapid("TestC06", 400000, shards=16), rapid("TestC12", 6000, shards=4, race=True, env={"VERIF_C12_MODE": "reader"}), plain("TestSizeSweep", shards=4), plain("TestProducerConsumerGrid", shards=4), plain("TestNestedCompositions")],
+     quick=[rapid("TestC06", 15000, shards=4), plain("TestSizeSweep", shards=4), plain("TestProducerConsumerGrid", shards=4), plain("TestNestedCompositions"),
+            rapid("TestC06", 3000, shards=2, race=True, gomaxprocs=4), plain("TestNestedCompositions", race=True, gomaxprocs=4)],
+     thorough=[rapid("TestC06", 400000, shards=16), rapid("TestC12", 6000, shards=4, race=True, env={"VERIF_C12_MODE": "reader"}), plain("TestSizeSweep", shards=4), plain("TestProducerConsumerGrid", shards=4), plain("TestNestedCompositions"),
+               rapid("TestC06", 40000, shards=4, race=True, gomaxprocs=4), plain("TestProducerConsumerGrid", shards=4, race=True, gomaxprocs=4), plain("TestNestedCompositions", race=True, gomaxprocs=4)],
      rule="rapid: (a) 35 templates applying every reordering/combining function (sort_by, sort, reverse, merge, to_array, map, max_by, flatten, slices, pipes) to documents whose arrays are visibly unsorted, optionally wrapped in a strict context, with a poisoned last key so that by-expression functions fail after partial work; (b) document-aware all-function expressions on those documents; (c) on G-doc documents. The document is rebuilt so that every array has hidden spare capacity filled with sentinels. Oracle: deep snapshot before == after (array order included) and sentinel tails intact, after the one-shot Search and after Compile+Search, on success and on error paths; thorough additionally runs searches under the race detector while another goroutine deep-reads the same document. Non-trivial: the reference evaluation shows that a function call or projection was evaluated (classes list call.<function>, path.success / path.error).",
      technique="invariant over generated (expression, document) pairs: deep snapshot equality + spare-capacity sentinels; race detector with a concurrent reader (thorough)",
      level_text="A write that restores the old value is invisible to a snapshot; the thorough tier's concurrent reader under -race covers it.",
